@@ -2,4 +2,5 @@
 import hashlib
 
 def obj_seed(obj):
-    return int(hashlib.sha1(hash(obj).to_bytes(8, 'big', signed=True)).hexdigest(), 16)
+    # hash() of strings is salted per process (PYTHONHASHSEED); repr() of plain data is stable
+    return int(hashlib.sha1(repr(obj).encode('utf-8')).hexdigest(), 16)
